@@ -73,6 +73,92 @@ def _copy_chunk(chunk, prop):
     return res
 
 
+def _xclass_targets(typed):
+    """Fresh target trees whose class differs from the source's: a plain subclass, a subclass with its own calc_data_id
+    (copies keep the *source's* data_ids all the same) and -- for the other direction -- the base class itself."""
+    from nutree import Tree
+    from nutree.typed_tree import TypedTree
+
+    base = TypedTree if typed else Tree
+
+    class SubTree(base):
+        pass
+
+    class KeyedSubTree(base):
+        def calc_data_id(self, data):
+            return "k:" + str(data)
+
+    return [("subclass", SubTree), ("subclass+calc_data_id", KeyedSubTree), ("same class", base)]
+
+
+def _xclass_chunk(chunk, prop):
+    """copy_to / add(node) into a tree of ANOTHER class (target class a proper subclass of the source's, with and without
+    an id hook; source class a proper subclass of the target's): new nodes, same data objects / ids / kinds / order."""
+    res = Result(prop)
+    for spec in chunk:
+        for tname, tcls in _xclass_targets(spec.typed):
+            for src_sub in (False, True):
+                if src_sub and tname != "same class":
+                    continue
+                src_cls = _xclass_targets(spec.typed)[0][1] if src_sub else None
+                n = len(spec.nodes)
+                cases = [("Tree.copy_to", -1, True, d, where) for d in (True, False) for where in ("tree", "node")]
+                cases += [("Node.copy_to", i, a, d, where) for i in range(n) for a in (True, False) for d in (True, False) for where in ("tree", "node")]
+                cases += [("add(node)", i, True, d, where) for i in range(n) for d in (True, False) for where in ("tree", "node")]
+                for func, i, add_self, deep, where in cases:
+                    tree, nodes = gen.build(spec, tree_cls=src_cls)
+                    before = view.obs(tree)
+                    tt = tcls("X")
+                    kw = {"kind": "k9"} if spec.typed else {}
+                    anchor = tt.add("anchor", **kw)
+                    target = tt if where == "tree" else anchor
+                    traw = tt._root if where == "tree" else anchor
+                    n0 = len(view.kids(traw))
+                    src = tree._root if i == -1 else nodes[i]
+                    if not add_self and not view.kids(src):
+                        continue
+                    wit = {"kind": "xclass", "spec": mut._spec_json(spec), "func": func, "node": i, "add_self": add_self, "deep": deep, "where": where, "target": tname, "src_sub": src_sub}
+                    res.add_case(f"{spec.short()} {func} {i} {add_self} {deep} {where} {tname} {src_sub}", nontrivial=True)
+                    try:
+                        if func == "Tree.copy_to":
+                            tree.copy_to(target, deep=deep)
+                        elif func == "Node.copy_to":
+                            nodes[i].copy_to(target, add_self=add_self, deep=deep)
+                        else:
+                            target.add(nodes[i], deep=deep)
+                    except Exception as e:  # noqa: BLE001
+                        res.violations.append(Violation(prop, "no exception", func, wit, clip(f"[target: {tname}{', source: subclass' if src_sub else ''}] raised {type(e).__name__}: {e}")))
+                        continue
+
+                    class _P:
+                        pass
+
+                    a, b = _P(), _P()
+                    a._children = list(view.kids(src)) if (i == -1 or not add_self) else [src]
+                    b._children = list(view.kids(traw))[n0:]
+                    if deep:
+                        diffs = iso(a, b)
+                    else:  # shallow: the copied nodes only, no descendants
+                        sa = _P()
+                        sa._children = []
+                        for x in a._children:
+                            y = _P()
+                            y._data, y._data_id, y._children = x._data, x._data_id, None
+                            if hasattr(x, "_kind"):
+                                y._kind = x._kind
+                            sa._children.append(y)
+                        diffs = iso(sa, b)
+                    for d in diffs[:2]:
+                        if "kind 'child' vs" in d:
+                            continue  # known finding F15 (shallow copy of a typed node takes the default kind): reported by the same-class sweep
+                        res.violations.append(Violation(prop, "ensures copy is isomorphic with identical data objects, ids, kinds", func, wit, clip(f"[target: {tname}{', source: subclass' if src_sub else ''}, {'deep' if deep else 'shallow'}, below the {where}] " + d)))
+                    for v in view.wf_violations(tt)[:2]:
+                        res.violations.append(Violation(prop, "ensures wf(target)", func, wit, v))
+                    if view.obs(tree) != before:
+                        res.violations.append(Violation(prop, "ensures source unchanged", func, wit, clip(view.fmt(tree))))
+    return res
+
+
 def _indep_chunk(chunk, prop):
     """later changes to either side are never visible in the other."""
     res = Result(prop)
@@ -120,6 +206,12 @@ def run(prop, tier, only=None):
     big = gen.big_specs(7, 6 if tier == "quick" else 40, lo=18, hi=32)
     total.merge(parallel(_copy_chunk, specs + hst + big, prop, prop=prop))
     total.bounds["Tree.copy / Node.copy"] = f"{len(big)} seeded larger trees with 18..32 nodes; {len(hst)} " + "histories: every tree of <= {n} nodes with all accessors evaluated once, then one of remove / remove(keep_children) / move_to / add / remove_children / sort_children / deep copy (native/hist.py), the checks run on the resulting tree".format(n=3) + f"; all plain forests <= {n} nodes, typed <= {3 if tier == 'quick' else 4}, explicit-id and equal-data variants <= 3; every start node, add_self on/off"
+    xs = list(gen.plain_specs(3, min_n=1)) + list(gen.typed_specs(2, min_n=1)) + list(gen.explicit_id_specs(2))
+    total.merge(parallel(_xclass_chunk, xs, prop, prop=prop))
+    total.bounds["copies into a tree of another class"] = (
+        "plain forests with 1..3 nodes, typed 1..2, explicit ids <= 2: Tree.copy_to / Node.copy_to (add_self on/off) / target.add(node), deep and shallow, below the target tree and below a node of it, "
+        "target class in {proper subclass, proper subclass with its own calc_data_id, the same class}, and a source of a proper subclass into the base class"
+    )
     ispecs = list(gen.plain_specs(2 if tier == "quick" else 3)) + list(gen.typed_specs(2))
     total.merge(parallel(_indep_chunk, ispecs, prop, prop=prop))
     total.bounds["independence after Tree.copy"] = f"forests <= {2 if tier == 'quick' else 3} nodes x every single mutation of ops.enum_ops on either side"
@@ -131,5 +223,8 @@ def replay(witness, prop):
     if k in ("op", "history"):
         return mut.replay(witness, prop)
     spec = mut.spec_from_json(witness["spec"])
+    if k == "xclass":
+        r = _xclass_chunk([spec], prop)
+        return [(v.clause, v.text) for v in r.violations if all(v.witness.get(q) == witness.get(q) for q in ("func", "node", "add_self", "deep", "where", "target", "src_sub"))]
     r = _copy_chunk([spec], prop) if k == "copy" else _indep_chunk([spec], prop)
     return [(v.clause, v.text) for v in r.violations if v.witness == witness or k == "copy" and v.witness.get("func") == witness.get("func") and v.witness.get("node") == witness.get("node") and v.witness.get("add_self") == witness.get("add_self")]
